@@ -21,10 +21,21 @@ fn variant_lean(name: &str) -> Result<&'static str, String> {
     }
 }
 
-/// Returns (lean pattern, bindings as `let` lines)
-fn or_pat(p: &Pat, scrut: &str, binds: &mut Vec<String>) -> Result<String, String> {
+/// Returns the alternatives of a pattern as Lean patterns (or-patterns are expanded) and collects
+/// `name := scrutinee` bindings (`x @ P`, plain identifiers).
+fn or_pat(p: &Pat, scrut: &str, binds: &mut Vec<String>) -> Result<Vec<String>, String> {
     match p {
-        Pat::Wild(_) => Ok("_".into()),
+        Pat::Wild(_) => Ok(vec!["_".into()]),
+        Pat::Paren(pp) => or_pat(&pp.pat, scrut, binds),
+        Pat::Or(o) => {
+            let mut alts = vec![];
+            for c in &o.cases {
+                let mut inner = vec![];
+                alts.extend(or_pat(c, scrut, &mut inner)?);
+                if !inner.is_empty() { return Err("ErrorKind::or: binding inside an or-pattern".into()); }
+            }
+            Ok(alts)
+        }
         Pat::Ident(i) => {
             let name = i.ident.to_string();
             if let Some((_, sub)) = &i.subpat {
@@ -34,19 +45,19 @@ fn or_pat(p: &Pat, scrut: &str, binds: &mut Vec<String>) -> Result<String, Strin
                 if !inner.is_empty() { return Err("ErrorKind::or: nested binding under `@`".into()); }
                 Ok(r)
             } else if name.chars().next().map_or(false, |c| c.is_uppercase()) {
-                Ok(format!(".{}", variant_lean(&name)?))
+                Ok(vec![format!(".{}", variant_lean(&name)?)])
             } else {
                 binds.push(format!("let {name} := {scrut}"));
-                Ok("_".into())
+                Ok(vec!["_".into()])
             }
         }
-        Pat::Path(pp) => Ok(format!(".{}", variant_lean(&pp.path.segments.last().unwrap().ident.to_string())?)),
+        Pat::Path(pp) => Ok(vec![format!(".{}", variant_lean(&pp.path.segments.last().unwrap().ident.to_string())?)]),
         Pat::TupleStruct(t) => {
             let v = variant_lean(&t.path.segments.last().unwrap().ident.to_string())?;
             if t.elems.len() != 1 { return Err("ErrorKind::or: variant arity".into()); }
             match &t.elems[0] {
-                Pat::Wild(_) => Ok(format!(".{v} _")),
-                Pat::Ident(i) if i.subpat.is_none() => Ok(format!(".{v} {}", i.ident)),
+                Pat::Wild(_) => Ok(vec![format!(".{v} _")]),
+                Pat::Ident(i) if i.subpat.is_none() => Ok(vec![format!(".{v} {}", i.ident)]),
                 other => Err(format!("ErrorKind::or: unsupported sub-pattern `{}`", ts(other))),
             }
         }
@@ -75,8 +86,8 @@ fn gen_error_or(ctx: &mut Ctx) -> Result<String, String> {
     for (k, arm) in m.arms.iter().enumerate() {
         let (p1, p2) = match &arm.pat { Pat::Tuple(t) if t.elems.len() == 2 => (&t.elems[0], &t.elems[1]), other => return Err(format!("ErrorKind::or: arm pattern `{}`", ts(other))) };
         let mut binds = vec![];
-        let l1 = or_pat(p1, "self_", &mut binds)?;
-        let l2 = or_pat(p2, &params[1], &mut binds)?;
+        let a1 = or_pat(p1, "self_", &mut binds)?;
+        let a2 = or_pat(p2, &params[1], &mut binds)?;
         let body = match &*arm.body { Expr::Path(p) if p.path.segments.len() == 1 => p.path.segments[0].ident.to_string(), other => return Err(format!("ErrorKind::or: arm body `{}`", ts(other))) };
         let guard = match &arm.guard {
             None => None,
@@ -84,19 +95,23 @@ fn gen_error_or(ctx: &mut Ctx) -> Result<String, String> {
                 // `<x>.kind() == io::ErrorKind::NotFound`
                 let s = squash(g);
                 let pre = s.strip_suffix(".kind()==io::ErrorKind::NotFound").ok_or(format!("ErrorKind::or: unsupported guard `{}`", ts(g)))?;
+                if a1.len() * a2.len() != 1 { return Err("ErrorKind::or: guard on an or-pattern".into()); }
                 Some(format!("{pre}.notFound"))
             }
         };
-        last_irrefutable = l1 == "_" && l2 == "_" && guard.is_none();
-        out.push_str(&format!("def errorOr_arm{k} (self_ {} : EK) : Option EK :=\n  match self_, {} with\n  | {l1}, {l2} =>\n", params[1], params[1]));
-        for b in &binds { out.push_str(&format!("    {b}\n")); }
-        match guard {
-            Some(g) => out.push_str(&format!("    if {g} then some {body} else none\n")),
-            None => out.push_str(&format!("    some {body}\n")),
-        }
-        if !(l1 == "_" && l2 == "_") { out.push_str("  | _, _ => none\n"); }
+        let irrefutable = a1 == ["_"] && a2 == ["_"];
+        last_irrefutable = irrefutable && guard.is_none();
+        out.push_str(&format!("def errorOr_arm{k} (self_ {} : EK) : Option EK :=\n  match self_, {} with\n", params[1], params[1]));
+        for l1 in &a1 { for l2 in &a2 {
+            out.push_str(&format!("  | {l1}, {l2} =>\n"));
+            for b in &binds { out.push_str(&format!("    {b}\n")); }
+            match &guard {
+                Some(g) => out.push_str(&format!("    if {g} then some {body} else none\n")),
+                None => out.push_str(&format!("    some {body}\n")),
+            }
+        } }
+        if !irrefutable { out.push_str("  | _, _ => none\n"); }
         out.push('\n');
-        let _ = n;
     }
     if !last_irrefutable { return Err("ErrorKind::or: last arm is not irrefutable".into()); }
     out.push_str(&format!("/-- `ErrorKind::or`: first matching arm, in source order. -/\ndef errorOr (self_ {} : EK) : EK :=\n", params[1]));
